@@ -669,6 +669,9 @@ def tangent_curve(ctx, p, mult, rational, dim):
     pt1, unit = ops.tangent(crv, u)
     _eq_vec(ctx, 'unit.point', pt1, want[0])
     _unit_checks(ctx, 'unit', unit, vec)
+    lst1 = ops.tangent(crv, [u])
+    ctx.check_true('unit.list.len', len(lst1) == 1 and len(lst1[0]) == 2)
+    _eq_vec(ctx, 'unit.list[0].vector=single_form', lst1[0][1], unit)
 
 
 def _tan_surface_shapes(tier):
@@ -711,6 +714,10 @@ def tangent_surface(ctx, pu, pv, mu, mv, rational, symnet):
     _eq_vec(ctx, 'unit.point', pt1, want[(0, 0)])
     _unit_checks(ctx, 'unit.tangent_u', utu, tu)
     _unit_checks(ctx, 'unit.tangent_v', utv, tv)
+    lst1 = ops.tangent(srf, [[u, v]])
+    ctx.check_true('unit.list.len', len(lst1) == 1 and len(lst1[0]) == 3)
+    _eq_vec(ctx, 'unit.list[0].tangent_u=single_form', lst1[0][1], utu)
+    _eq_vec(ctx, 'unit.list[0].tangent_v=single_form', lst1[0][2], utv)
 
 
 @scenario('C02', fns=['operations.normal', '_operations.normal_surface_single',
@@ -740,3 +747,8 @@ def normal_surface(ctx, pu, pv, mu, mv, rational, symnet):
     _unit_checks(ctx, 'unit.normal', un, nrm)
     _eq(ctx, 'unit.normal.orthogonal_to_tangent_u', _dot(un, tu), 0)
     _eq(ctx, 'unit.normal.orthogonal_to_tangent_v', _dot(un, tv), 0)
+    # the list form with the default normalize=True is its own code path
+    nl1 = ops.normal(srf, [[u, v]])
+    ctx.check_true('unit.list.len', len(nl1) == 1 and len(nl1[0]) == 2)
+    _eq_vec(ctx, 'unit.list[0].point', nl1[0][0], want[(0, 0)])
+    _eq_vec(ctx, 'unit.list[0].normal=single_form', nl1[0][1], un)
